@@ -327,6 +327,47 @@ fn do_match(rep: &mut Report, specs: &[Vec<u8>], items: &[It]) -> Real {
         }
         Real::ParseErr(_) => {}
         Real::Done { mappings, validated, .. } => {
+            // every object id named as a fetch source must come out as a mapping of its own (git asks the
+            // remote for each of them), with a destination iff the spec has one
+            let mut wanted: Vec<(String, Option<Vec<u8>>)> = Vec::new();
+            for spec in specs {
+                let body: &[u8] = if spec.first() == Some(&b'+') { &spec[1..] } else { &spec[..] };
+                let (src, dst) = match body.find_byte(b':') {
+                    Some(p) => (&body[..p], Some(body[p + 1..].to_vec()).filter(|d| !d.is_empty())),
+                    None => (body, None),
+                };
+                if is_hex40(src) {
+                    let want = (String::from_utf8_lossy(src).to_ascii_lowercase(), dst);
+                    if !wanted.contains(&want) {
+                        wanted.push(want);
+                    }
+                }
+            }
+            if !wanted.is_empty() {
+                rep.bucket(if wanted.len() > 1 { "match:object-id-sources:2+" } else { "match:object-id-sources:1" });
+            }
+            for (id, dst) in &wanted {
+                let found = mappings.iter().any(|m| {
+                    matches!(&m.lhs, Lhs::Oid(o) if o.to_string() == *id)
+                        && m.rhs.is_some() == dst.is_some()
+                        && match (dst, &m.rhs) {
+                            (Some(d), Some(r)) if d.starts_with(b"refs/") => d == r,
+                            _ => true,
+                        }
+                });
+                if !found {
+                    let names: Vec<Vec<u8>> = items.iter().map(|i| i.name.clone()).collect();
+                    rep.oracle_failure(
+                        &format!("object-id-source-lost {}", key_of(specs, &names)),
+                        &format!(
+                            "the fetch source {id}{} has no mapping; gitoxide's mappings name the object ids {:?}",
+                            dst.as_ref().map(|d| format!(":{}", show(d))).unwrap_or_default(),
+                            mappings.iter().filter_map(|m| match &m.lhs { Lhs::Oid(o) => Some(o.to_string()), _ => None }).collect::<Vec<_>>()
+                        ),
+                        &op,
+                    );
+                }
+            }
             rep.bucket(&format!(
                 "match:{}:{}",
                 match mappings.len() {
@@ -623,6 +664,41 @@ fn gen_spec(r: &mut Rng, names: &[Vec<u8>], extra_oids: &[ObjectId]) -> Vec<u8> 
 }
 
 fn gen_specs(r: &mut Rng, names: &[Vec<u8>], extra_oids: &[ObjectId]) -> Vec<Vec<u8>> {
+    if r.chance(1, 8) {
+        // several DIFFERENT object ids as sources, with the same / different / no destination
+        // (`git fetch origin <id1> <id2>`), optionally mixed with an ordinary spec
+        let ids: Vec<String> = if extra_oids.is_empty() {
+            (0..4).map(|i| fake_oid(900 + i).to_string()).collect()
+        } else {
+            extra_oids.iter().map(|o| o.to_string()).collect()
+        };
+        let k = 2 + r.usize(ids.len() - 1);
+        let shape = r.below(4);
+        let mut specs: Vec<Vec<u8>> = (0..k)
+            .map(|i| {
+                let mut s = if r.chance(1, 5) { b"+".to_vec() } else { Vec::new() };
+                s.extend(ids[i % ids.len()].as_bytes());
+                match shape {
+                    0 => {}
+                    1 => s.extend(format!(":refs/x/o{i}").as_bytes()),
+                    2 => s.extend(b":refs/x/same"),
+                    _ => {
+                        if r.chance(1, 2) {
+                            s.push(b':');
+                            s.extend(gen_plain_dst(r));
+                        }
+                    }
+                }
+                s
+            })
+            .collect();
+        if r.chance(1, 3) {
+            let extra = gen_spec(r, names, extra_oids);
+            let at = r.usize(specs.len() + 1);
+            specs.insert(at, extra);
+        }
+        return specs;
+    }
     let n = match r.below(8) {
         0..=2 => 1,
         3..=5 => 2,
@@ -991,6 +1067,21 @@ fn main() {
         let mut names: Vec<Vec<u8>> = names.iter().map(|s| b(s)).collect();
         names.sort();
         do_git_scenario(&mut rep, &world, &names, true, &specs, *witness);
+    }
+    {
+        // several different object ids as sources (`git fetch origin <id1> <id2>`)
+        let id = |i: usize| world.extra[i].to_string();
+        let names = vec![b("refs/heads/a")];
+        for specs in [
+            vec![id(0), id(1)],
+            vec![id(0), id(1), id(2), id(3)],
+            vec![format!("{}:refs/x/a", id(0)), format!("{}:refs/x/b", id(1))],
+            vec![format!("{}:refs/x/same", id(0)), format!("{}:refs/x/same", id(1))],
+            vec![id(0), "refs/heads/a:refs/x/a".to_string(), format!("+{}:refs/x/b", id(1)), id(0)],
+        ] {
+            let specs: Vec<Vec<u8>> = specs.iter().map(|s| b(s)).collect();
+            do_git_scenario(&mut rep, &world, &names, true, &specs, false);
+        }
     }
     for s in [
         "", ":", "@", "@:", "^", "^:", "+", "+:", "^a", "^refs/heads/a", "^refs/heads/*", "^HEAD", "^refs/heads/a:b",
